@@ -991,7 +991,10 @@ func (r *c04Runner) callbackCase(cfg *c04Cfg, s c04Spec, n int) {
 	b := vfNewBrowser("")
 	l, err := b.StartLogin(cfg.P, vfIdentity{Sub: loginSub, Email: "unused@idp.test", Profile: profile}, "/")
 	if err != nil {
-		r.run.T.Fatalf("c04: start login (%s): %v", cfg.Name, err)
+		// rig trouble (never seen on an idle machine): counted, bounded by the 5 % inconclusive limit of the run
+		r.run.Eval("")
+		r.run.Inconclusive(fmt.Sprintf("rig: login could not be started (%s): %v", cfg.Name, err))
+		return
 	}
 	cb := b.Get(cfg.P, l.CallbackTarget(cfg.P))
 	mu.Lock()
@@ -1111,7 +1114,10 @@ func (r *c04Runner) refreshProbe(rc *c04Refresh) {
 	cfg, run := rc.cfg, r.run
 	defer r.handlers.Delete("login-" + rc.tag)
 	if rc.loginErr != nil {
-		run.T.Fatalf("c04: refresh path, login as A failed (%s): %v", cfg.Name, rc.loginErr)
+		// rig trouble: the ordinary login as A did not get through (resource exhaustion on a loaded machine)
+		run.Eval("")
+		run.Inconclusive(fmt.Sprintf("rig: refresh path, ordinary login as A failed (%s): %s", cfg.Name, vfTrunc(rc.loginErr.Error(), 120)))
+		return
 	}
 	var emitted []*http.Cookie
 	first := true
